@@ -178,6 +178,48 @@ func (m *memTr) expr(e ast.Expr, pre *[]string) string {
 			return mident(id.Name) + "." + mident(x.Sel.Name)
 		}
 	case *ast.UnaryExpr:
+		if cl, ok := x.X.(*ast.CompositeLit); ok && x.Op == token.AND && m.recv == "" {
+			// &T{Field: expr, ...} of a struct with scalar / byte-slice fields: the record value (the pointer is fresh by construction)
+			nt, ok := m.typeOf(cl).(*types.Named)
+			if !ok {
+				m.refuse(e, "composite literal of an unnamed type")
+			}
+			st, ok := nt.Underlying().(*types.Struct)
+			if !ok {
+				m.refuse(e, "composite literal of a non-struct")
+			}
+			vals := map[string]string{}
+			for _, el := range cl.Elts {
+				kv, ok := el.(*ast.KeyValueExpr)
+				if !ok {
+					m.refuse(e, "positional struct literal")
+				}
+				vals[kv.Key.(*ast.Ident).Name] = m.expr(kv.Value, pre)
+			}
+			var fs []string
+			for i := 0; i < st.NumFields(); i++ {
+				f := st.Field(i)
+				v, ok := vals[f.Name()]
+				if !ok {
+					switch m.kindOf(f.Type()) {
+					case "slice":
+						v = "[]" // nil slice: no elements
+					case "int":
+						v = "(0 : Int)"
+					case "u8":
+						v = "0#8"
+					case "u16":
+						v = "0#16"
+					case "bool":
+						v = "false"
+					default:
+						m.refuse(e, "zero value of field "+f.Name())
+					}
+				}
+				fs = append(fs, fmt.Sprintf("%s := %s", mident(f.Name()), v))
+			}
+			return "{ " + strings.Join(fs, ", ") + " : " + nt.Obj().Name() + " }"
+		}
 		if x.Op == token.NOT {
 			return "(!" + m.expr(x.X, pre) + ")"
 		}
@@ -259,6 +301,16 @@ func (m *memTr) expr(e ast.Expr, pre *[]string) string {
 		if m.kindOf(m.typeOf(x)) == "map" && len(x.Elts) == 0 {
 			return "goEmptyMap"
 		}
+		if m.kindOf(m.typeOf(x)) == "slice" {
+			var els []string
+			for _, el := range x.Elts {
+				if _, isKV := el.(*ast.KeyValueExpr); isKV {
+					m.refuse(e, "keyed slice literal")
+				}
+				els = append(els, m.expr(el, pre))
+			}
+			return "([" + strings.Join(els, ", ") + "] : List U8)"
+		}
 	}
 	m.refuse(e, fmt.Sprintf("unsupported expression %T", e))
 	return ""
@@ -333,6 +385,9 @@ func tuple(vs []string) string {
 
 func (m *memTr) finish(val string) string {
 	// the function's answer: receiver object afterwards (+ effects in struct mode) (+ result)
+	if m.recv == "" {
+		return "pure " + val // a free function (constructor mode)
+	}
 	if m.structs {
 		if m.retType == "" {
 			return fmt.Sprintf("pure (%s, fx)", mident(m.recv))
@@ -452,8 +507,19 @@ func (m *memTr) block(stmts []ast.Stmt, ind string, tail string, inLoop bool, lo
 			switch fid.Name {
 			case "copy":
 				se, ok := call.Args[0].(*ast.SliceExpr)
-				if !ok || se.Slice3 || se.Low == nil || se.High == nil {
-					m.refuse(s, "copy whose destination is not d[lo:hi]")
+				if !ok || se.Slice3 || se.Low == nil {
+					m.refuse(s, "copy whose destination is not d[lo:hi] or d[lo:]")
+				}
+				if se.High == nil {
+					// d[lo:] — the high bound is len(d)
+					did, ok := se.X.(*ast.Ident)
+					if !ok || m.kindOf(m.typeOf(did)) != "slice" || m.kindOf(m.typeOf(call.Args[1])) != "slice" || m.kindOf(m.typeOf(se.Low)) != "int" {
+						m.refuse(s, "copy on unsupported operands")
+					}
+					m.mutableObj(s, did.Name)
+					lo, src := m.expr(se.Low, &pre), m.expr(call.Args[1], &pre)
+					emit(pre, fmt.Sprintf("let %s ← goCopy %s %s (goLen %s) %s", mident(did.Name), mident(did.Name), lo, mident(did.Name), src))
+					continue
 				}
 				if f, ok := m.recvField(se.X); ok && m.kindOf(m.typeOf(se.X)) == "array" && m.kindOf(m.typeOf(call.Args[1])) == "slice" {
 					if m.kindOf(m.typeOf(se.Low)) != "int" || m.kindOf(m.typeOf(se.High)) != "int" {
@@ -559,6 +625,16 @@ func (m *memTr) block(stmts []ast.Stmt, ind string, tail string, inLoop bool, lo
 				id, ok := x.Lhs[0].(*ast.Ident)
 				if !ok {
 					m.refuse(s, "definition target")
+				}
+				if ce, ok := x.Rhs[0].(*ast.CallExpr); ok {
+					if fid, ok := ce.Fun.(*ast.Ident); ok {
+						if _, isB := m.info.Uses[fid].(*types.Builtin); isB && fid.Name == "make" && len(ce.Args) == 2 && m.kindOf(m.typeOf(ce.Args[0])) == "slice" && m.kindOf(m.typeOf(ce.Args[1])) == "int" {
+							n := m.expr(ce.Args[1], &pre)
+							m.created[id.Name] = true
+							emit(pre, fmt.Sprintf("let %s ← goMake %s", mident(id.Name), n))
+							break
+						}
+					}
 				}
 				if cl, ok := x.Rhs[0].(*ast.CompositeLit); ok && m.kindOf(m.typeOf(cl)) == "slice" {
 					// a fresh byte slice with the listed elements (never written through in the fragment: element assignment on it is refused)
